@@ -21,6 +21,7 @@ from google.rpc import status_pb2, code_pb2  # noqa
 from google.type import date_pb2, latlng_pb2, money_pb2, expr_pb2  # noqa
 from google.iam.v1 import iam_policy_pb2, policy_pb2, options_pb2  # noqa
 from google.cloud.location import locations_pb2  # noqa
+from google.cloud import extended_operations_pb2 as ex_ops_pb2  # noqa
 
 F = dpb.FieldDescriptorProto
 
@@ -113,6 +114,12 @@ def _lower_field(f, msg_proto, oneof_index):
         fp.options.Extensions[resource_pb2.resource_reference].child_type = f["child_ref"]
     if f.get("uuid4"):
         fp.options.Extensions[field_info_pb2.field_info].format = field_info_pb2.FieldInfo.UUID4
+    if f.get("operation_field"):
+        fp.options.Extensions[ex_ops_pb2.operation_field] = ex_ops_pb2.OperationResponseMapping.Value(f["operation_field"])
+    if f.get("operation_request_field"):
+        fp.options.Extensions[ex_ops_pb2.operation_request_field] = f["operation_request_field"]
+    if f.get("operation_response_field"):
+        fp.options.Extensions[ex_ops_pb2.operation_response_field] = f["operation_response_field"]
     return fp
 
 
@@ -179,6 +186,10 @@ def _lower_method(m, mp):
             rp.field = p["field"]
             if p.get("path_template"):
                 rp.path_template = p["path_template"]
+    if m.get("operation_polling_method"):
+        mp.options.Extensions[ex_ops_pb2.operation_polling_method] = True
+    if m.get("operation_service"):
+        mp.options.Extensions[ex_ops_pb2.operation_service] = m["operation_service"]
     if m.get("lro") is not None:
         oi = mp.options.Extensions[operations_pb2.operation_info]
         oi.SetInParent()
@@ -281,6 +292,8 @@ def lower(spec):
             need("google/api/resource.proto")
         if '"uuid4": true' in blob:
             need("google/api/field_info.proto")
+        if '"operation_field"' in blob or '"operation_service"' in blob or '"operation_polling_method"' in blob:
+            need("google/cloud/extended_operations.proto")
         del txt
         fd.dependency.extend(deps)
         targets.append(fd)
